@@ -32,6 +32,7 @@ type Rec struct {
 	Offset int64         `json:"offset"`
 	Epoch  int32         `json:"epoch"`
 	Drop   bool          `json:"drop,omitempty"`
+	Bad    int           `json:"bad,omitempty"` // the pipeline refuses the record at its entrance: 1 empty value (tombstone), 2 undecodable
 	Pause  time.Duration `json:"pause,omitempty"`
 }
 
@@ -123,6 +124,9 @@ func (h *H) Gen(rng *rand.Rand, tier, prop string) core.Cfg {
 		}
 		if c.HasAction && core.Chance(rng, 0.2) {
 			r.Drop = true
+		}
+		if core.Chance(rng, 0.06) {
+			r.Bad = core.Between(rng, 1, 2)
 		}
 		if core.Chance(rng, 0.3) {
 			r.Pause = core.DurBetween(rng, time.Millisecond, 300*time.Millisecond)
@@ -297,6 +301,12 @@ func (h *H) Run(cc core.Cfg, sim *simrt.Sim) *core.Outcome {
 		b.MaxPoll = cfg.MaxPoll
 		mk := func(rc Rec) *simkgo.Record {
 			v := fmt.Sprintf(`{"id":%d,"drop":%v}`, rc.ID, rc.Drop)
+			switch rc.Bad {
+			case 1:
+				v = ""
+			case 2:
+				v = fmt.Sprintf(`{"id":%d,"dr`, rc.ID)
+			}
 			return &simkgo.Record{Value: []byte(v), Offset: rc.Offset, LeaderEpoch: rc.Epoch}
 		}
 		// every (topic, partition) exists from the start
@@ -309,6 +319,10 @@ func (h *H) Run(cc core.Cfg, sim *simrt.Sim) *core.Outcome {
 				s.consumed++
 				if s.consumed > 1 {
 					o.Probes["redelivered"]++
+				}
+				if s.rec.Bad != 0 && !s.finished {
+					// refused at the pipeline's entrance (empty or undecodable): deliberately dropped, never marked itself
+					s.finished, s.finStep = true, simrt.Steps()
 				}
 			}
 		}
